@@ -511,8 +511,9 @@ class Peer:
             )
             return message
         except asyncio.TimeoutError:
-            # RFC 4271 8.2.2: the timer running out in OpenSent is Hold Timer Expired, no message was received
-            raise Notify(4, 0, 'waited for open too long, we do not like stuck in active') from None
+            # the wait for the peer's OPEN (exabgp.bgp.openwait) is not the negotiated hold timer: ending it is
+            # reported as an FSM error of the OpenSent state (RFC 6608), as ExaBGP documents and always did
+            raise Notify(5, 1, 'waited for open too long, we do not like stuck in active') from None
 
     async def _send_ka(self) -> None:
         """Sends KEEPALIVE message using async I/O"""
